@@ -74,6 +74,8 @@ class CoapH(explore.Harness):
         from aiohomekit.controller.coap.connection import EncryptionContext, EventResource
 
         self.p = p
+        if p.get("no_err_reply"):
+            self.ALPH = [a for a in self.ALPH if a != "err-reply"]
         self.loop = vloop.VirtualLoop().install()
         self.log = aeadspy.SpyLog()
         seed = p.get("seed", 0)
